@@ -23,7 +23,7 @@ def needs(pid, tier):
         'C12': (['fixture-cg', 'ws-default', 'logos-forbid'], gen, False),
         'C13': (['fixture-rt', 'ws-default'] + (['logos-forbid'] if t else []), gen, False),
         'C14': (['fixture-rt', 'ws-default', 'logos-forbid'] + (['logos-release'] if t else []), [], True),
-        'C15': (['fixture-rt', 'ws-default', 'logos-release'] + (['logos-forbid'] if t else []), [], t),
+        'C15': (['fixture-rt', 'ws-default', 'logos-release'] + (['logos-forbid'] if t else []), gen, t),
         'C16': (['fixture-cg', 'ws-default', 'fixture'] + (['codegen-sm'] if t else []), [], False),
         'C17': (['fixture-cg', 'ws-default', 'fixture'], [], False),
         'C18': (['fixture-cg', 'ws-default'], gen, False),
